@@ -37,8 +37,12 @@ def variant_world(world, variant):
         elif v.startswith('ln:'):
             for s in w['solvers'].values():
                 s['ln'] = v[3:]
-        elif v == 'norel':
+        elif v in ('norel', 'modefwd'):
             pass
+        elif v == 'colored':
+            for c in w['comps']:
+                if c.get('approx'):
+                    c['approx']['colored'] = True
     return w
 
 
@@ -75,7 +79,7 @@ class Sim:
         self.results = []          # model-visible results (for twins / determinism / interleaving)
         self.own = B.owner_of(self.world)
         self.tol = 1e-6 if self._iterative() else 1e-8
-        if any(s_['ln'] == 'krylov' for s_ in self.world['solvers'].values()):
+        if any(s_['ln'].startswith('krylov') for s_ in self.world['solvers'].values()):
             self.tol = 1e-5
         self.pending_faults = []
         self.stale_outputs = set()     # outputs overwritten by set_val since last run
@@ -84,9 +88,12 @@ class Sim:
     # ------------------------------------------------------------------ helpers
     def _iterative(self):
         for s in self.world['solvers'].values():
-            if s['nl'] != 'runonce' or s['ln'] in ('lnbgs', 'lnbj', 'krylov'):
+            if s['nl'] != 'runonce' or s['ln'].split('_')[0] in ('lnbgs', 'lnbj', 'krylov'):
                 return True
         return False
+
+    def _iterative_linear(self):
+        return any(s['ln'].split('_')[0] in ('lnbgs', 'lnbj', 'krylov') for s in self.world['solvers'].values())
 
     def V(self, inv, msg, **kw):
         d = {'inv': inv, 'msg': f"[{self.name}{'/' + self.variant if self.variant else ''}] {msg}"}
@@ -197,7 +204,17 @@ class Sim:
                 a = kn['approx_totals']
                 self.p.model.approx_totals(method=a['method'], step=a.get('step'), form=a.get('form')) \
                     if a['method'] == 'fd' else self.p.model.approx_totals(method='cs')
-            self.p.setup(mode=kn.get('mode', 'auto'), force_alloc_complex=bool(kn.get('complex', False)))
+            for g, a in (kn.get('group_approx') or {}).items():
+                if g in self.groups:
+                    if a['method'] == 'fd':
+                        self.groups[g].approx_totals(method='fd', step=a.get('step'), form=a.get('form'))
+                    else:
+                        self.groups[g].approx_totals(method='cs')
+            if kn.get('approx_totals') and 'colored' in self.variant:
+                self.p.model.declare_coloring(wrt='*', method=kn['approx_totals']['method'], num_full_jacs=2,
+                                              tol=1e-20, show_summary=False, show_sparsity=False)
+            mode = 'fwd' if 'modefwd' in self.variant else kn.get('mode', 'auto')
+            self.p.setup(mode=mode, force_alloc_complex=bool(kn.get('complex', False)))
         finally:
             rel._no_relevance = False
         self.setup_done = True
@@ -206,6 +223,9 @@ class Sim:
         # a fresh setup resets every value to its declared default
         self.ref = Ref(self.world)
         return None
+
+    def op_linearize(self, op):
+        self.p.model.run_linearize()
 
     def op_final_setup(self, op):
         self.p.final_setup()
@@ -385,30 +405,67 @@ class Sim:
         return {'v': v, 'w': w, 'Jv': {k: np.array(x) for k, x in Jv.items()},
                 'JTw': {k: np.array(x) for k, x in JTw.items()}, 'of': of, 'wrt': wrt, 'mode': mode}
 
+    def vec_names(self):
+        """[(reference key, absolute output name)] for every output of the root vector."""
+        out = []
+        m = self.p.model
+        for c in self.world['comps']:
+            for o in c['outs']:
+                out.append((o['name'], self.absn(o['name'])))
+            for i in c['ins']:
+                if i.get('via') == 'auto':
+                    out.append(('_auto:' + i['name'], m._conn_global_abs_in2out[self.absn(i['name'])]))
+        return out
+
+    def _set_lin(self, vec, arr):
+        for key, absname in self.vec_names():
+            s_, sz = self.ref.off[key]
+            vec._abs_get_val(absname, flat=True)[:] = arr[s_:s_ + sz]
+
+    def _get_lin(self, vec):
+        out = np.zeros(self.ref.N)
+        for key, absname in self.vec_names():
+            s_, sz = self.ref.off[key]
+            out[s_:s_ + sz] = np.array(vec._abs_get_val(absname, flat=True)).real
+        return out
+
     def op_linops(self, op):
-        """apply_linear fwd vs rev duality on a group, against the reference operator."""
-        gname = op.get('group', '')
-        grp = self.groups[gname]
+        """Root-level apply_linear / solve_linear in fwd and rev on seeded vectors (reference layout)."""
+        m = self.p.model
         rs = np.random.default_rng(op.get('seed', 0))
-        self.p.model.run_linearize()
-        res = {}
-        outs = [n for n in grp._doutputs._names] if hasattr(grp._doutputs, '_names') else None
-        n = len(grp._doutputs)
-        v = rs.integers(-4, 5, size=n).astype(float) / 2
-        w = rs.integers(-4, 5, size=n).astype(float) / 2
-        # fwd: d_residuals = dR/dy . v  (inputs zeroed: only the output block of the operator)
-        grp._doutputs.set_val(v)
-        grp._dinputs.set_val(0.0) if len(grp._dinputs) else None
-        grp._dresiduals.set_val(0.0)
-        grp.run_apply_linear('fwd')
-        Av = grp._dresiduals.asarray(copy=True)
-        grp._dresiduals.set_val(w)
-        grp._doutputs.set_val(0.0)
-        grp._dinputs.set_val(0.0) if len(grp._dinputs) else None
-        grp.run_apply_linear('rev')
-        ATw = grp._doutputs.asarray(copy=True)
+        N = self.ref.N
+        v = rs.integers(-4, 5, size=N).astype(float) / 2
+        w = rs.integers(-4, 5, size=N).astype(float) / 2
+        m.run_linearize()
+        modes = ['fwd'] + (['rev'] if self.p._orig_mode == 'rev' else [])
+        res = {'v': v, 'w': w}
+        for vec in (m._doutputs, m._dresiduals, m._dinputs):
+            vec.set_val(0.0)
+        self._set_lin(m._doutputs, v)
+        m.run_apply_linear('fwd')
+        res['Av'] = self._get_lin(m._dresiduals)
+        if 'rev' in modes:
+            for vec in (m._doutputs, m._dresiduals, m._dinputs):
+                vec.set_val(0.0)
+            self._set_lin(m._dresiduals, w)
+            m.run_apply_linear('rev')
+            res['ATw'] = self._get_lin(m._doutputs)
+        if op.get('solve', True):
+            for vec in (m._doutputs, m._dresiduals, m._dinputs):
+                vec.set_val(0.0)
+            self._set_lin(m._dresiduals, v)
+            m.run_solve_linear('fwd')
+            res['Sv'] = self._get_lin(m._doutputs)
+            if 'rev' in modes:
+                for vec in (m._doutputs, m._dresiduals, m._dinputs):
+                    vec.set_val(0.0)
+                self._set_lin(m._doutputs, w)
+                m.run_solve_linear('rev')
+                res['STw'] = self._get_lin(m._dresiduals)
+        for vec in (m._doutputs, m._dresiduals, m._dinputs):
+            vec.set_val(0.0)
         self.st.inc('linops')
-        return {'v': v, 'w': w, 'Av': Av, 'ATw': ATw, 'group': gname}
+        return res
 
     # ------------------------------------------------------------------ state snapshots
     def state_bytes(self, with_resid=False):
@@ -425,6 +482,25 @@ class Sim:
     def check_values(self, inv_out='I-08-outputs', inv_in='I-04-inputs'):
         """After a clean run: outputs and inputs against the reference."""
         y = self.ref.solve()
+        if self.ref.quads and self.world['cycle'] is not None:
+            # a cyclic quadratic world has several roots: anchor the reference at the root nearest to
+            # the model's converged state, provided that state satisfies the reference equations
+            y_om = y.copy()
+            for key, absname in self.vec_names():
+                s_, sz = self.ref.off[key]
+                y_om[s_:s_ + sz] = np.array(self.p.get_val(absname)).ravel()
+            if np.all(np.isfinite(y_om)) and relerr(y_om, y) > self.tol:
+                r = self.ref.residual(y_om)
+                if np.max(np.abs(r)) <= 1e-6 * (1 + np.max(np.abs(y_om))):
+                    try:
+                        y2 = self.ref.polish(y_om)
+                        if np.all(np.isfinite(y2)) and relerr(y2, y_om) <= 1e-5:
+                            key = tuple(np.concatenate([v for k, v in sorted(self.ref.indep.items())]).tolist())
+                            self.ref.anchor = (key, y2)
+                            self.probes.inc('alternate_root_accepted')
+                            y = self.ref.solve()
+                    except np.linalg.LinAlgError:
+                        pass
         worst = 0.0
         for c in self.world['comps']:
             for o in c['outs']:
